@@ -61,6 +61,14 @@ def generated_part(r):
     return tok.split_items(out)
 
 
+def is_cfg_only_cfg_attr(a):
+    """`cfg_attr(predicate, cfg(..), cfg(..))`: the part of a `cfg_attr` that decides whether the fn exists (mirrored like `cfg`)."""
+    if tok.attr_path(a) != "cfg_attr" or len(a) != 2 or not tok.is_g(a[1], "("):
+        return False
+    parts = tok.split_commas(a[1]["s"])
+    return len(parts) >= 2 and all(len(p_) == 2 and tok.is_i(p_[0], "cfg") and tok.is_g(p_[1], "(") for p_ in parts[1:])
+
+
 def check_generated_attrs(c, r, rep, allow_cfg_mirror):
     """No user attribute on generated trait / impl / their methods; no attribute on generated parameters."""
     for it in generated_part(r):
@@ -78,7 +86,7 @@ def check_generated_attrs(c, r, rep, allow_cfg_mirror):
                 continue
             for a in mk["attrs"]:
                 last = tok.attr_path(a).split("::")[-1]
-                if not (allow_cfg_mirror and last == "cfg"):
+                if not (allow_cfg_mirror and (last == "cfg" or is_cfg_only_cfg_attr(a))):
                     rep.violation(c.id, "attr-copied:method:%s" % last, "attribute `%s` on generated method `%s` of the %s" % (tok.render(a), mk["name"], k["kind"]))
             par = next(t for t in m[mk["at"]:] if tok.is_g(t, "("))
             if any(tok.is_p(t, "#") for t in par["s"]):
@@ -107,7 +115,9 @@ def fn_case(cid, rng, mode):
         if rng.random() < 0.7:
             pre = rng.choice(["", "", "/// docs first\n    ", "#[inline]\n    ", "#[allow(unused)] #[doc(hidden)]\n    "])
             post = rng.choice(["", "", " #[inline]", " #[cfg(all())]"])
-            body.insert(rng.randint(0, len(body)), "    %s#[cfg(any())]%s pub fn gone<D>(deps: &D, x: i32) -> i32 { this_does_not_exist(x) }" % (pre, post))
+            # (the predicate may also reach the fn through a `cfg_attr`)
+            gate = rng.choice(["#[cfg(any())]", "#[cfg(any())]", "#[cfg_attr(all(), cfg(any()))]", "#[cfg_attr(not(any()), allow(unused), cfg(not(all())))]"])
+            body.insert(rng.randint(0, len(body)), "    %s%s%s pub fn gone<D>(deps: &D, x: i32) -> i32 { this_does_not_exist(x) }" % (pre, gate, post))
             cfg_gone.append("gone")
         if rng.random() < 0.7 and not any(f.type_params or f.const_params for f in b.fns):
             body.insert(rng.randint(0, len(body)), "    #[cfg(all())] pub fn kept<D>(deps: &D, x: i32) -> i32 { ::vrt::enter(\"%s::kept\", ::vrt::tn(deps), ::vrt::addr(deps), &[&x as &dyn ::core::fmt::Debug]); x }" % cid)
@@ -127,7 +137,7 @@ def trait_case(cid, rng, inversion):
     opts = "TrImpl, delegate_by = DelegateTr" if inversion else rng.choice(["", "delegate_by = Self"])
     ms = []
     for i in range(rng.randint(2, 4)):
-        cfg = rng.choice(["", "", "#[cfg(all())]", "#[cfg(any())]"])
+        cfg = rng.choice(["", "", "#[cfg(all())]", "#[cfg(any())]", "#[cfg_attr(all(), cfg(any()))]"])
         # (`#[deprecated]` is not used: rustc rejects it on trait-impl items, and the statement demands mirroring)
         extra = rng.sample(["/// method doc", "#[allow(unused)]", "#[must_use]", "#[inline]", "#[doc(hidden)]"], rng.randint(0, 2))
         ms.append(("m%d" % i, cfg, extra))
@@ -143,7 +153,7 @@ def trait_case(cid, rng, inversion):
             L.append("    " + a)
         L.append("    %sfn %s(&self, a: i32) -> i32;" % (asy[name], name))
     L.append("}")
-    enabled = [m for m in ms if m[1] != "#[cfg(any())]"]
+    enabled = [m for m in ms if "any()" not in m[1]]
     if not inversion:
         L.append("pub struct Prov;")
         L.append("impl Tr for Prov {")
@@ -161,7 +171,7 @@ def trait_case(cid, rng, inversion):
             if cfg:
                 L.append("    " + rng.choice(["", "", "/// docs first\n    ", "#[allow(unused)]\n    "]) + cfg)
             body = '{ ::vrt::enter("%s::Target::%s", ::vrt::tn(deps), ::vrt::addr(deps), &[&a as &dyn ::core::fmt::Debug]); a + 1 }' % (cid, name)
-            if cfg == "#[cfg(any())]":
+            if "any()" in cfg:
                 body = "{ this_does_not_exist(a) }"
             L.append("    %sfn %s<D>(deps: &D, a: i32) -> i32 %s" % (asy[name], name, body))
         L.append("}")
